@@ -12,7 +12,7 @@ PROPERTY = "C14"
 LEVEL = "exploration"
 # parts repeated in a child interpreter started with -O and with warnings turned into errors (vlib/runner.py, MODES)
 MODE_PARTS = {"OW": ['vectors', 'every-length', 'ring-hash-function', 'str-subclasses']}
-RULE_THREADS = (" The hash function a RendezvousHash(seed=s) holds (fresh, built with nodes=, copy.copy, copy.deepcopy) equals the reference with seed s. Instances of str subclasses (a plain subclass, one overriding __str__/__repr__/__format__, a str-valued Enum member) hash as their characters. Two threads: each hashes its own string while the other is pre-empted at every bytecode of the hash function (deterministic scheduler, one pre-emption per run; thorough: two) - every call still returns the reference value (the function is a pure function of its arguments, also under concurrency).")
+RULE_THREADS = (" The hash function a RendezvousHash(seed=s) holds (fresh, built with nodes=, copy.copy, copy.deepcopy) equals the reference with seed s. Instances of str subclasses (a plain subclass, one overriding __str__/__repr__/__format__, a str-valued Enum member) hash as their characters. Two threads: each hashes its own string while the other is pre-empted at every bytecode of the hash function (deterministic scheduler, one pre-emption per run; thorough: two) - every call still returns the reference value (the function is a pure function of its arguments, also under concurrency). One RendezvousHash shared by two threads, pre-empted once (some twice) at every bytecode of the ring's code: every lookup gives what the rule gives. Input lengths run to 800 (every length) and a few far beyond: the function has no bound, and a node name, a dash and a 250-byte key make some 300 bytes. One long-lived ring places 18 000 to 40 000 different keys (more than 65 536 scored strings) like the rule. Strings with code points above 255 (non-ASCII keys under allow_unicode_keys) must keep the value every release so far gives them - the reference hash of the code points' low bytes - since placement must not change between releases.")
 RULE = ("cases are (string, 32-bit seed); enumerated: published vectors, every string of length 0-3 "
         "(thorough: 0-3 over a larger alphabet, 4-5 over reduced ones) over representative code points "
         "incl. 0x00,0x7f,0x80,0xff x seeds {0,1,2^31,2^32-1}; Hypothesis: every length 0..64 over code "
@@ -62,7 +62,19 @@ def check(case):
         raise Violation(["nondeterministic"], "murmur3_32(%r, %#x) gave %r then %r" % (s[:40], seed, got, again))
     b = refhash.latin1(s)
     if b is None:
-        labels.append("non-latin1 One RendezvousHash shared by two threads, pre-empted once (some twice) at every bytecode of the ring's code: every lookup gives what the rule gives. Input lengths run to 800 (every length) and a few far beyond: the function has no bound, and a node name, a dash and a 250-byte key make some 300 bytes. One long-lived ring places 18 000 to 40 000 different keys (more than 65 536 scored strings) like the rule.")
+        labels.append("non-latin1")
+        # "placement does not change between releases": for a string with code points above 255 the pinned release's value is
+        # the reference hash of every code point's low byte (bits above the 32nd never come back down: every right shift is
+        # masked first) - frozen here as the value such strings (non-ASCII keys with allow_unicode_keys) keep
+        low = bytes(ord(ch) & 0xFF for ch in s)
+        frozen = refhash.murmur3(low, seed)
+        if got != frozen:
+            raise Violation(["wide-string-value-changed"],
+                            "murmur3_32(%r, %#x) = %#010x; every release so far gives %#010x (the reference hash of the code points' low bytes): placement of such keys would move"
+                            % (s[:40], seed, got, frozen))
+        tail = s[len(s) & ~3:]
+        if any(ord(ch) > 255 for ch in tail):
+            labels.append("wide-char-in-tail")
         return True, labels
     want = refhash.murmur3(b, seed)
     c = refhash.c_reference()
